@@ -10,12 +10,17 @@
    follows cannot continue an expression; and wrapping it in redundant
    parentheses changes nothing.  The statement is at the token level: that the
    lexer model gives back exactly the printed tokens for the rendered text is
-   checked per tree on every run (code 5 of chk_roundtrip), as is the round
-   trip of statements, blocks and function literals on the real parser.
+   checked per tree on every run (code 5 of chk_roundtrip).  StmtProofs.v
+   extends the round trip to every statement form (if, if-else with the
+   dangling-else rule, while, for with several iterators, return, yield,
+   assignment, expression statements) in every body position — one-line,
+   braced because it would otherwise be ambiguous, braced block — and to a
+   whole input, for trees without function literals.  Function literals are
+   the one construct left to the runs on the real parser.
    For floats the hypothesis [float_ok] (the literal text converts back to the
    same float) is decided per tree. *)
 Require Import Calc.Base Calc.Bytecode Calc.Value Calc.FloatText Calc.Ast Calc.Lexer Calc.Grammar Calc.Printer
-        Calc.GrammarProofs.
+        Calc.GrammarProofs Calc.StmtProofs.
 Open Scope nat_scope.
 
 Theorem C07_expression_round_trip : forall x rest fuel,
@@ -48,6 +53,40 @@ Print Assumptions C07_every_operand_position.
 Theorem C07_string_literal_round_trip : forall s, no_backslash s = true -> wrap_string (quote s) = s.
 Proof. exact wrap_quote. Qed.
 Print Assumptions C07_string_literal_round_trip.
+
+(* statements: what follows must not continue the last expression, must not
+   be "=" and, after a statement that ends in an else-less if, must not be "else" *)
+Theorem C07_statement_round_trip : forall s rest f,
+  wfst s = true -> followS s rest -> need s <= f -> p_stmt f (S_ (pp s) ++ rest) = Got s rest.
+Proof. intros s rest f W Hf Hn. exact (statements_parse_back s W rest f Hf Hn). Qed.
+Print Assumptions C07_statement_round_trip.
+
+(* bodies, in every form the printer may give them: a braced block, a single
+   statement braced because a one-line form would be ambiguous (it starts with
+   "-", "(" or "[" after an expression, or would capture a following else), or
+   the one-line form; redundant braces around one statement are unwrapped *)
+Theorem C07_body_round_trip : forall b g mc rest f,
+  wfbd b = true -> needb b <= f ->
+  (match b with NBlock _ => True | _ => raw_body g mc b = true -> followS b rest end) ->
+  p_block f (S_ (pbody g mc b) ++ rest) = Got b rest.
+Proof. intros b g mc rest f W Hn Hf. exact (bodies_parse_back b W g mc rest f Hn Hf). Qed.
+Print Assumptions C07_body_round_trip.
+
+Theorem C07_program_round_trip : forall b fuel,
+  wfbd b = true -> needb b <= fuel ->
+  p_program fuel (S_ (pbody false false b) ++ [Some tNl; Some (T KEOF "")]) = Got [b] [].
+Proof. exact program_roundtrip. Qed.
+Print Assumptions C07_program_round_trip.
+
+(* non-vacuity: dangling else, an ambiguous body, a block, a for over two iterators *)
+Example C07_statements_nonvacuous :
+  let s := NIfElse (NBin "<" (NName "a") (NInt 1))
+             (NIf (NName "c") (NAssign (NName "x") (NUn "-" (NInt 2))))
+             (NBlock [NFor [NName "i"; NName "j"] [NName "p"; NList [NInt 1]] (NYield (NBin "+" (NName "i") (NName "j")));
+                      NWhile (NBool true) (NUn "-" (NName "x")); NReturn (NInt 0)]) in
+  wfst s = true /\
+  p_program (need s + 2) (S_ (pp s) ++ [Some tNl; Some (T KEOF "")]) = Got [s] [].
+Proof. cbv zeta. split; vm_compute; reflexivity. Qed.
 
 (* the hypotheses are met: a tree with every level, both index forms, a call and a list *)
 Example C07_nonvacuous :
